@@ -68,7 +68,12 @@ class Runner:
             return [None] * len(cases)
         lines, idx = [], []
         for i, c in enumerate(cases):
-            ml = self.mod.model(c)
+            try:
+                ml = self.mod.model(c)
+            except (KeyboardInterrupt, SystemExit, C.CaseTimeout):
+                raise
+            except BaseException:  # building the op line touches the implementation (sizes, presented rolls)
+                ml = None
             if ml is None:
                 continue
             if isinstance(ml, str):
